@@ -550,6 +550,13 @@ Proof.
     + intros j Hj. destruct ((f' <=? j) && (j <? f' + a)) eqn:C; [lia|]. apply E2. lia.
 Qed.
 
+(* error unwinding of one frame is restoreLastFrame *)
+Lemma sim_unwind s t : R s t -> ok t OUnwind = true ->
+  R (step s OUnwind) (sstep t OUnwind).
+Proof.
+  intros HR Hok. change (R (step s ORet) (sstep t ORet)). apply sim_ret; assumption.
+Qed.
+
 Lemma sim_step s t o : R s t -> ok t o = true -> fits s o = true ->
   R (step s o) (sstep t o).
 Proof.
@@ -568,6 +575,7 @@ Proof.
   - apply sim_newvar; assumption.
   - apply sim_tailcall; assumption.
   - apply sim_tailcall_old; assumption.
+  - apply sim_unwind; assumption.
 Qed.
 
 Lemma sim_run : forall l s t, R s t -> D t l = true -> fits_run s l = true ->
